@@ -217,14 +217,20 @@ theorem normData_eq (E : Ext) (t : util.EFIGUID) (d : List UInt8) :
   · by_cases hn : (E.pemDecode d).1.isNil = true <;> simp [hx, hn]
   · simp [hx]
 
+theorem CERT_EXTERNAL_ne_SHA256 : CERT_EXTERNAL_MANAGEMENT_GUID ≠ CERT_SHA256_GUID := by decide
+
 /-- closed form of the translated `AppendBytes` (F27 repair: the data is PEM-normalised first, and
-    it is the normalised data that is looked up and stored) -/
+    it is the normalised data that is looked up and stored; F37 repair: the `switch` on the list's
+    type has a second case, externally-managed data is one byte) -/
 theorem signature.SignatureList.AppendBytes_eq (E : Ext) (sl : SignatureList) (o : util.EFIGUID)
     (d : List UInt8) :
     sl.AppendBytes E o d =
       if (⟨o, normData E sl.SignatureType d⟩ : SignatureData) ∈ sl.Signatures then
         (sl, some "ErrSigDataExists") else
       if sl.SignatureType = CERT_SHA256_GUID ∧ (normData E sl.SignatureType d).length ≠ 32 then
+        (sl, some "errors.New") else
+      if sl.SignatureType = CERT_EXTERNAL_MANAGEMENT_GUID ∧
+          (normData E sl.SignatureType d).length ≠ 1 then
         (sl, some "errors.New") else
       if sl.Signatures ≠ [] ∧
           UInt32.ofNat (normData E sl.SignatureType d).length + 16 ≠ sl.Size then
@@ -239,13 +245,22 @@ theorem signature.SignatureList.AppendBytes_eq (E : Ext) (sl : SignatureList) (o
   · simp [hm]
   · simp only [hm, decide_false, Bool.false_eq_true, if_false]
     by_cases hs : sl.SignatureType = CERT_SHA256_GUID
-    · simp only [hs, beq_self_eq_true, if_true, true_and]
+    · have hne : ¬ (CERT_SHA256_GUID = CERT_EXTERNAL_MANAGEMENT_GUID) := fun h => CERT_EXTERNAL_ne_SHA256 h.symm
+      simp only [hs, beq_self_eq_true, if_true, true_and, hne, false_and, if_false]
       by_cases hl : d'.length = 32
       · simp [hl, lenI]
       · have : ¬ ((d'.length : Int) = 32) := by omega
         simp [hl, lenI, this]
     · have hb' : (sl.SignatureType == CERT_SHA256_GUID) = false := by simpa using hs
-      simp [hs, hb']
+      simp only [hs, hb', Bool.false_eq_true, if_false, false_and]
+      by_cases he : sl.SignatureType = CERT_EXTERNAL_MANAGEMENT_GUID
+      · simp only [he, beq_self_eq_true, if_true, true_and]
+        by_cases hl : d'.length = 1
+        · simp [hl, lenI]
+        · have : ¬ ((d'.length : Int) = 1) := by omega
+          simp [hl, lenI, this]
+      · have hb'' : (sl.SignatureType == CERT_EXTERNAL_MANAGEMENT_GUID) = false := by simpa using he
+        simp [he, hb'']
 
 theorem signature.SignatureList.AppendBytes_err (E : Ext) (sl : SignatureList) (o : util.EFIGUID)
     (d : List UInt8) (h : (sl.AppendBytes E o d).2.isSome) : (sl.AppendBytes E o d).1 = sl := by
@@ -256,9 +271,11 @@ theorem signature.SignatureList.AppendBytes_err (E : Ext) (sl : SignatureList) (
     · rfl
     · split
       · rfl
-      · rename_i h1 h2 h3
-        rw [if_neg h1, if_neg h2, if_neg h3] at h
-        simp at h
+      · split
+        · rfl
+        · rename_i h1 h2 h3 h4
+          rw [if_neg h1, if_neg h2, if_neg h3, if_neg h4] at h
+          simp at h
 
 
 /-! ### the list loops of `SignatureDatabase.Append` and `Remove` -/
